@@ -122,6 +122,26 @@ struct Ref {
   }
 };
 
+// MPI-3.1 11.7: operations of one access epoch (or of concurrent epochs under a shared lock) on the same location are
+// only defined if they are all Gets, or all accumulate-type calls with the same operation (Accumulate/Get_accumulate
+// with MPI_SUM here), or all Compare_and_swap. Mode 1 serialises every operation (exclusive lock per operation): always
+// defined. Mode 2 orders the operations of one origin (Win_flush after each): the rule applies to locations touched by
+// two origins. Mode 0 (one fence epoch): the rule applies to every location touched twice.
+static bool defined_by_mpi(const Program& P, int mode)
+{
+  if (mode == 1) return true;
+  int R = (int)P.size();
+  for (int t = 0; t < R; t++) for (int c = 0; c < CELLS; c++) {
+    int n = 0, fam[3] = {0, 0, 0}, origins = 0;
+    for (int r = 0; r < R; r++) { bool touched = false;
+      for (auto& o : P[r]) if (o.t == t && o.c == c) { n++; touched = true; if (o.type == GET) fam[0]++; else if (o.type == ACC || o.type == GACC) fam[1]++; else if (o.type == CAS) fam[2]++; }
+      if (touched) origins++; }
+    if (n < 2 || (mode == 2 && origins < 2)) continue;
+    if (fam[0] != n && fam[1] != n && fam[2] != n) return false;
+  }
+  return true;
+}
+
 // ------------------------------------------------------------------------------------------------ SMPI side
 static int g_mem[MAXR * CELLS], g_fetched[16];      // shared by all ranks (smpi/privatization:no)
 
@@ -186,8 +206,8 @@ int main(int argc, char** argv)
   if (odarg) { const char* c = odarg; od_dist = num(c); c++; od_index = num(c); c++; while (*c) { od_digits.push_back(num(c)); if (*c == ',') c++; } }
   Program singleP;
   if (single) { singleP = parse_prog(single, R); dists.assign(1, std::vector<int>(R, 0)); for (int r = 0; r < R; r++) dists[0][r] = (int)singleP[r].size(); }
-  long index = -1, generated = 0, relevant = 0, runs = 0, multi = 0, states = 0, transitions = 0, outcomes_total = 0, nviol = 0, conflicts = 0;
-  auto publish = [&]() { long c[] = {generated, relevant, runs, multi, states, transitions, outcomes_total, nviol, conflicts}; for (int i = 0; i < 9; i++) score[2 + i] = c[i]; };
+  long index = -1, generated = 0, relevant = 0, runs = 0, multi = 0, states = 0, transitions = 0, outcomes_total = 0, nviol = 0, conflicts = 0, undefined_progs = 0;
+  auto publish = [&]() { long c[] = {generated, relevant, runs, multi, states, transitions, outcomes_total, nviol, conflicts, undefined_progs}; for (int i = 0; i < 10; i++) score[2 + i] = c[i]; };
   for (size_t di = 0; di < dists.size(); di++) {
     auto& k = dists[di];
     if ((int)di < od_dist) continue;
@@ -216,6 +236,7 @@ int main(int argc, char** argv)
           for (int mode = 0; mode < 3; mode++) {
             if (index == after_i && mode <= after_m) continue;
             if (onlymode >= 0 && mode != onlymode) continue;
+            if (!defined_by_mpi(P, mode)) { undefined_progs++; continue; }
             Ref ref(P, mode);
             ref.run();
             states += (long)ref.seen.size(); transitions += ref.transitions; outcomes_total += (long)ref.outcomes.size();
@@ -257,8 +278,8 @@ int main(int argc, char** argv)
   }
   MPI_Barrier(comm);
   if (rank == 0) { publish(); score[0] = -2;
-    printf("N generated=%ld relevant=%ld runs=%ld multi=%ld states=%ld transitions=%ld outcomes=%ld violations=%ld conflicts=%ld\n",
-           generated, relevant, runs, multi, states, transitions, outcomes_total, nviol, conflicts); }
+    printf("N generated=%ld relevant=%ld runs=%ld multi=%ld states=%ld transitions=%ld outcomes=%ld violations=%ld conflicts=%ld undefined=%ld\n",
+           generated, relevant, runs, multi, states, transitions, outcomes_total, nviol, conflicts, undefined_progs); }
   MPI_Win_free(&win);
   MPI_Free_mem(base);
   MPI_Finalize();
